@@ -98,3 +98,134 @@ func init() {
 		return nil, fmt.Errorf(`, New: `	if err := LastSequence(sc.header.SeqNo).Validate(h.SeqNo); err != nil && sc.Handler == nil {
 		return nil, fmt.Errorf(`}}})
 }
+
+func init() {
+	// ---- C05 ------------------------------------------------------------------------------
+	addMutant(Mutant{Name: "c05-readfull-to-read", Props: []string{"C05"}, Rule: "R-FRAMING", KeySub: "only-readfull",
+		Why: "the body is read with a single Read: on loopback one Read returns the whole body, on a real network it may not",
+		Edits: []Edit{{File: "crypt.go", Old: `	if _, err := io.ReadFull(c.Reader, b); err != nil {`, New: `	if _, err := c.Reader.Read(b); err != nil {`}}})
+	addMutant(Mutant{Name: "c05-reader-per-read", Props: []string{"C05"}, Rule: "R-FRAMING", KeySub: "",
+		Why: "a new bufio.Reader is built for every read: bytes of the next packet buffered by the previous reader are lost",
+		Edits: []Edit{{File: "crypt.go", Old: `	// allocate a tacacs header
+	h := make([]byte, MaxHeaderLength)`, New: `	// allocate a tacacs header
+	c.Reader = bufio.NewReaderSize(c.Conn, 107)
+	h := make([]byte, MaxHeaderLength)`}}})
+	addMutant(Mutant{Name: "c05-size-test-after-alloc", Props: []string{"C05"}, Rule: "R-FRAMING", KeySub: "oversize-guard",
+		Why: "the body buffer is allocated before the announced length is checked",
+		Edits: []Edit{{File: "crypt.go", Old: `	if s > MaxBodyLength {
+		return nil, fmt.Errorf("max header length exceeded in crypt read, aborting")
+	}
+	b := make([]byte, int(s))`, New: `	b := make([]byte, int(s))
+	if s > MaxBodyLength {
+		return nil, fmt.Errorf("max header length exceeded in crypt read, aborting")
+	}`}}})
+	addMutant(Mutant{Name: "c05-body-read-error-ignored", Props: []string{"C05"}, Rule: "R-FRAMING", KeySub: "short-read-is-error#2",
+		Why: "a short body read only increments a counter: a shortened packet goes on to be decoded",
+		Edits: []Edit{{File: "crypt.go", Old: `	if _, err := io.ReadFull(c.Reader, b); err != nil {
+		crypterReadError.Inc()
+		return nil, err
+	}`, New: `	if _, err := io.ReadFull(c.Reader, b); err != nil {
+		crypterReadError.Inc()
+	}`}}})
+	addMutant(Mutant{Name: "c05-revert-386-fix", Props: []string{"C05"}, Rule: "R-", KeySub: "",
+		Why: "the announced length is converted to int before the limit test (negative on 32-bit int)",
+		Edits: []Edit{{File: "crypt.go", Old: `	s := binary.BigEndian.Uint32(h[8:])
+	if s > MaxBodyLength {`, New: `	s := int32(binary.BigEndian.Uint32(h[8:]))
+	if s > int32(MaxBodyLength) {`}}})
+	addMutant(Mutant{Name: "c05-second-write", Props: []string{"C05"}, Rule: "R-FRAMING", KeySub: "",
+		Why: "header and body are written with two Write calls",
+		Edits: []Edit{{File: "crypt.go", Old: `	n, err := c.Write(b)
+	if err != nil {`, New: `	n, err := c.Write(b[:MaxHeaderLength])
+	if err == nil {
+		n, err = c.Write(b[MaxHeaderLength:])
+	}
+	if err != nil {`}}})
+
+	// ---- C17 ------------------------------------------------------------------------------
+	addMutant(Mutant{Name: "c17-add-inside-goroutine", Props: []string{"C17"}, Rule: "R-PAIR", KeySub: "add-before-go",
+		Why: "the wait-group increment moves into the connection goroutine",
+		Edits: []Edit{{File: "server.go", Old: `			s.Add(1)
+			go s.serve(ctx, conn)`, New: `			go s.serve(ctx, conn)`},
+			{File: "server.go", Old: `	defer s.Done()
+	timer := prometheus.NewTimer(`, New: `	s.Add(1)
+	defer s.Done()
+	timer := prometheus.NewTimer(`}}})
+	addMutant(Mutant{Name: "c17-no-read-deadline", Props: []string{"C17"}, Rule: "R-LOOP", KeySub: "deadline",
+		Why: "the read deadline call is dropped: idle connections are never reaped",
+		Edits: []Edit{{File: "server.go", Old: `			if err := c.SetReadDeadline(time.Now().Add(15 * time.Second)); err != nil {
+				s.Errorf(ctx, "unable to set read deadline on connection %v", c.RemoteAddr())
+			}
+`, New: ``}}})
+	addMutant(Mutant{Name: "c17-zero-deadline", Props: []string{"C17"}, Rule: "R-LOOP", KeySub: "deadline",
+		Why: "a zero time.Time disables the deadline",
+		Edits: []Edit{{File: "server.go", Old: `c.SetReadDeadline(time.Now().Add(15 * time.Second))`, New: `c.SetReadDeadline(time.Time{})`}}})
+	addMutant(Mutant{Name: "c17-no-wait", Props: []string{"C17"}, Rule: "R-PAIR", KeySub: "deferred-close-and-wait",
+		Why: "Serve no longer waits for the connection goroutines",
+		Edits: []Edit{{File: "server.go", Old: `		s.Wait()
+`, New: ``}}})
+	addMutant(Mutant{Name: "c17-deadline-once", Props: []string{"C17"}, Rule: "R-LOOP", KeySub: "deadline",
+		Why: "the deadline is armed once before the loop instead of before every read",
+		Edits: []Edit{{File: "server.go", Old: `	defer sessionProvider.close()
+	for {`, New: `	defer sessionProvider.close()
+	c.SetReadDeadline(time.Now().Add(15 * time.Second))
+	for {`},
+			{File: "server.go", Old: `			if err := c.SetReadDeadline(time.Now().Add(15 * time.Second)); err != nil {
+				s.Errorf(ctx, "unable to set read deadline on connection %v", c.RemoteAddr())
+			}
+`, New: ``}}})
+	addMutant(Mutant{Name: "c17-done-not-deferred", Props: []string{"C17"}, Rule: "R-PAIR", KeySub: "done-deferred-first",
+		Why: "Done is called at the end of serve instead of deferred: the refusal return skips it",
+		Edits: []Edit{{File: "server.go", Old: `	defer s.Done()
+	timer := prometheus.NewTimer(`, New: `	timer := prometheus.NewTimer(`},
+			{File: "server.go", Old: `	serveAccepted.Dec()
+}`, New: `	serveAccepted.Dec()
+	s.Done()
+}`}}})
+
+	// ---- C20 ------------------------------------------------------------------------------
+	addMutant(Mutant{Name: "c20-drop-handlers-dec", Props: []string{"C20"}, Rule: "R-PAIR", KeySub: "gauge:handlers",
+		Why: "the handlers gauge is never decremented",
+		Edits: []Edit{{File: "server.go", Old: `			handlers.Dec()
+`, New: ``}}})
+	addMutant(Mutant{Name: "c20-revert-conditional-dec", Props: []string{"C20"}, Rule: "R-PAIR", KeySub: "gauge:sessionsActive:delete",
+		Why: "the repaired unconditional Dec in delete comes back",
+		Edits: []Edit{{File: "sessions.go", Old: `	if sc, ok := s.known[session]; ok {
+		sessionsActive.Dec()
+		if sc != nil {
+			sc.timer.ObserveDuration()
+		}
+	}`, New: `	sessionsActive.Dec()
+	if sc := s.known[session]; sc != nil {
+		sc.timer.ObserveDuration()
+	}`}}})
+	addMutant(Mutant{Name: "c20-inc-in-update", Props: []string{"C20"}, Rule: "R-PAIR", KeySub: "gauge:sessionsActive",
+		Why: "update also increments the gauge although the population does not change",
+		Edits: []Edit{{File: "sessions.go", Old: `	sc.header = h
+	sc.Handler = n`, New: `	sessionsActive.Inc()
+	sc.header = h
+	sc.Handler = n`}}})
+	addMutant(Mutant{Name: "c20-close-does-not-drain", Props: []string{"C20"}, Rule: "R-PAIR", KeySub: "",
+		Why: "the repaired drain at connection close is removed",
+		Edits: []Edit{{File: "sessions.go", Old: `		r.timer.ObserveDuration()
+		sessionsActive.Dec()
+		delete(s.known, id)`, New: `		r.timer.ObserveDuration()
+		_ = id`}}})
+	addMutant(Mutant{Name: "c20-early-return-skips-accepted-dec", Props: []string{"C20"}, Rule: "R-PAIR", KeySub: "gauge:serveAccepted",
+		Why: "a new early return between Inc and Dec of the accepted-connections gauge",
+		Edits: []Edit{{File: "server.go", Old: `	serveAccepted.Inc()
+	s.handle(ctx, newCrypter(secret, conn, s.proxy), handler)`, New: `	serveAccepted.Inc()
+	if s.proxy && len(secret) == 0 {
+		conn.Close()
+		return
+	}
+	s.handle(ctx, newCrypter(secret, conn, s.proxy), handler)`}}})
+	addMutant(Mutant{Name: "c20-set-without-miss", Props: []string{"C20"}, Rule: "R-PAIR", KeySub: "insert-site",
+		Why: "every packet re-registers its session (set is called unconditionally)",
+		Edits: []Edit{{File: "server.go", Old: `			if state == nil {
+				state = h
+				sessionProvider.set(req.Header, nil)
+			}`, New: `			sessionProvider.set(req.Header, nil)
+			if state == nil {
+				state = h
+			}`}}})
+}
